@@ -181,13 +181,50 @@ func VerifC20Matcher() {
 		return
 	}
 	sec := lib.VerifInt64("unix")
-	lib.VerifAssume(sec >= 946684800 && sec < 4102444800)
 	loc := time.UTC
+	off := int64(0)
 	switch lib.VerifPick("zone", lib.VerifParam("zones", 1)) {
 	case 1:
-		loc = time.FixedZone("plus", 5*3600+1800)
+		off = 5*3600 + 1800
+		loc = time.FixedZone("plus", int(off))
 	case 2:
-		loc = time.FixedZone("minus", -8*3600)
+		off = -8 * 3600
+		loc = time.FixedZone("minus", int(off))
+	}
+	if w := lib.VerifParam("window", 0); w == 2 {
+		// the month is enumerated, the instant inside it is symbolic: this keeps the calendar
+		// arithmetic of package time nearly branch-free. Months 0..95 are 2023-01 .. 2030-12 (two leap
+		// years); 96..99 are 2000-02 (leap century), 2100-02 (non-leap century), 2038-01, 1970-01.
+		months := lib.VerifParam("months", 48)
+		blocks := lib.VerifParam("blocks", 1)
+		per := (months + blocks - 1) / blocks
+		blk := 0
+		if blocks > 1 {
+			nitems := []int{len(c20Min), len(c20Hour), len(c20Day), len(c20Month), len(c20WDay)}[focus]
+			blk = lib.VerifShard("raw", 1<<30) / nitems % blocks
+		}
+		ym := blk*per + lib.VerifPick("yearmonth", per)
+		lib.VerifAssume(ym < months)
+		y, m := 2023+ym/12, 1+ym%12
+		switch ym {
+		case 96:
+			y, m = 2000, 2
+		case 97:
+			y, m = 2100, 2
+		case 98:
+			y, m = 2038, 1
+		case 99:
+			y, m = 1970, 1
+		}
+		from := time.Date(y, time.Month(m), 1, 0, 0, 0, 0, time.UTC).Unix()
+		to := time.Date(y, time.Month(m+1), 1, 0, 0, 0, 0, time.UTC).Unix()
+		// the enumerated month is the civil month in the job's zone
+		lib.VerifAssume(sec >= from-off && sec < to-off)
+	} else if w == 1 {
+		// 2023-01-01 .. 2031-01-01 UTC (two leap years); the full century is the thorough bound
+		lib.VerifAssume(sec >= 1672531200 && sec < 1924992000)
+	} else {
+		lib.VerifAssume(sec >= 946684800 && sec < 4102444800)
 	}
 	t := time.Unix(sec, 0).In(loc)
 	got := mask.IsRunAt(t)
